@@ -29,6 +29,12 @@ func BindPlacer(srcPath, dstPath fs.AbsolutePath, writable bool) (Janitor, error
 		return nil, Errorf(rio.ErrLocalCacheProblem, "error placing with bind mount: %s", err)
 	}
 
+	// A symlink cannot be bind-mounted: mount(2) follows it (and a symlink at the destination as well), so what
+	//  gets mounted, and where, would be whatever the links point at -- outside the source, outside the tree.
+	if srcStat.Type == fs.Type_Symlink {
+		return nil, Errorf(rio.ErrAssemblyInvalid, "error placing with bind mount: source %s is a symlink", srcPath)
+	}
+
 	// Make the destination path exist and be the right type to mount over.
 	if err := mkDest(dstPath, srcStat.Type); err != nil {
 		return nil, err
